@@ -448,7 +448,7 @@ distinct = distinct elevation strings / azimuth-list pairs; oracle = 10-line ref
     // random grouping
     let n = ctx.tier.pick(20_000, 400_000);
     for i in 0..n {
-        if i % 16 == 1 {
+        if i % 128 == 1 {
             crate::props::poison::run(i as u64);
         }
         if ctx.out_of_time() {
@@ -505,7 +505,7 @@ distinct = distinct elevation strings / azimuth-list pairs; oracle = 10-line ref
     // random merge
     let n = ctx.tier.pick(20_000, 400_000);
     for i in 0..n {
-        if i % 16 == 1 {
+        if i % 128 == 1 {
             crate::props::poison::run(i as u64);
         }
         if ctx.out_of_time() {
